@@ -229,6 +229,10 @@ Section Route.
   Qed.
 
   (* ---------------- one exchange: a single recipient ---------------- *)
+  Lemma exchange_is_spec cfg rules t attempts failures :
+    cfg_wf cfg -> exchange cfg rules t attempts failures = spec_exchange cfg rules t attempts failures.
+  Proof. intros Hwf. unfold exchange, spec_exchange. rewrite (route_is_spec _ _ _ Hwf). reflexivity. Qed.
+
   Theorem single_recipient cfg rules t attempts failures :
     cfg_wf cfg ->
     match spec_route cfg rules t with
